@@ -467,7 +467,7 @@ def run(ctx):
         for v in inst["first_verdicts"]:
             if v["bad"] is None:
                 continue
-            sig = KNOWN_VIA_C16 if causal.get(id(inst)) else f"false-invariant:{label}:{v['pstr']}"
+            sig = f"false-invariant:{label}:{v['pstr']}"
             new = ctx.violation(sig, {"input": label, "instance": raw_instance(inst), "goals": inst.get("goals") or inst["names"], "closed_forms": inst["exprs"],
                                       "invariant": v["pstr"], "basis": inst["first_basis_str"], "n": v["bad"][0],
                                       "value_at_n": str(exppoly.field_to_complex(v["bad"][1], inst["gens"])),
